@@ -1018,6 +1018,14 @@ class Interp:
             return o[ix]
         if isinstance(o, range):
             o = list(o)
+        if isinstance(o, str) and o != "<str>":
+            if isinstance(ix, Fraction) and ix.denominator == 1:
+                ix = int(ix)
+            if isinstance(ix, (int, slice)):
+                try:
+                    return o[ix]
+                except IndexError:
+                    raise Raised("IndexError")
         if isinstance(o, (list, tuple)):
             if isinstance(ix, (int, slice)):
                 try:
@@ -1122,6 +1130,20 @@ class Interp:
                         raise Raised("str.format")
                 return "<str>"
             return PyFunc(fmt)
+        if isinstance(o, str) and o != "<str>" and name in (
+                "startswith", "endswith", "replace", "split", "upper",
+                "lower", "strip", "lstrip", "rstrip", "find", "count",
+                "removeprefix", "removesuffix", "partition", "rpartition"):
+            def smeth(a, k, n, o=o, name=name):
+                if all(isinstance(x, (str, int, tuple)) for x in a) and \
+                        not k:
+                    try:
+                        return getattr(o, name)(*a)
+                    except (TypeError, ValueError):
+                        raise Raised(f"str.{name}")
+                raise Unsupported(f"str.{name} with non-literal arguments",
+                                  n)
+            return PyFunc(smeth)
         if isinstance(o, str) and name in ("join", "upper", "lower",
                                            "strip"):
             return PyFunc(lambda a, k, n: "<str>")
